@@ -523,6 +523,30 @@ pub const TEMPLATES: &[Template] = &[
     ..T0
   },
   Template {
+    name: "wrap-with-callee",
+    langs: JS,
+    severity: "hint",
+    message: "wrap the numbers of $FN",
+    rule: "  pattern: $FN($$$ARGS)\n",
+    constraints: &[("FN", "    regex: ^(foo|bar)$\n")],
+    rewriters: &["- id: num-of\n  rule:\n    kind: number\n    pattern: $N\n  fix: $FN.of($N)\n"],
+    transform: &[("WRAPPED", "    rewrite:\n      rewriters: [num-of]\n      source: $$$ARGS\n      joinBy: \", \"\n")],
+    fix: "$FN($WRAPPED)",
+    valid: &["baz(1, 2)"],
+    invalid: &["foo(1, 2)", "bar(1, 2)"],
+    ..T0
+  },
+  Template {
+    name: "program-without-comment",
+    langs: JS,
+    severity: "hint",
+    message: "file without any comment",
+    rule: "  kind: program\n  not:\n    has:\n      kind: comment\n",
+    valid: &["// c\nlet a = 1"],
+    invalid: &["let a = 1"],
+    ..T0
+  },
+  Template {
     name: "drop-array-number",
     langs: JS,
     severity: "hint",
